@@ -200,6 +200,14 @@ func runReplay(bin string, cfg propCfg, path string, timeout time.Duration) (boo
 	}
 }
 
+func head(s string, n int) string {
+	lines := strings.Split(s, "\n")
+	if len(lines) > n {
+		lines = append(lines[:n], "...")
+	}
+	return strings.Join(lines, "\n")
+}
+
 func tail(s string, n int) string {
 	lines := strings.Split(strings.TrimRight(s, "\n"), "\n")
 	if len(lines) > n {
@@ -516,7 +524,7 @@ func run(id, tier, replay string) int {
 			if shown++; shown > 8 {
 				continue
 			}
-			fmt.Printf("  %s\n", strings.ReplaceAll(trunc(v.Msg, 1200), "\n", "\n  "))
+			fmt.Printf("  %s\n", strings.ReplaceAll(head(trunc(v.Msg, 1200), 12), "\n", "\n  "))
 			fmt.Printf("VIOLATION property=%s replay=%s\n", id, v.Replay)
 		}
 		if shown > 8 {
